@@ -253,6 +253,15 @@ Fixpoint next_handle_after (calls : list (bcall * answer)) (nh : N) : N :=
   | (c, a) :: r => next_handle_after r (if creates c a then nh + 1 else nh)
   end.
 
+(** [c09_step] needs no model state: after the first model mismatch the C09 predicate keeps judging the rest of the
+    observed history (a failing input is then reported concretely instead of only as a broken correspondence) *)
+Fixpoint c09_only (steps : list ostep) (i : nat) (nh : N) (modes : list (N * N)) : option nat :=
+  match steps with
+  | [] => None
+  | o :: rest => let '(p09, nh9, modes') := c09_step o nh modes in
+                 if p09 then c09_only rest (S i) nh9 modes' else Some i
+  end.
+
 Fixpoint run_hist (steps : list ostep) (i : nat) (s : sstate) (nh : N) (modes : list (N * N)) (v : verdict) : verdict :=
   match steps with
   | [] => v
@@ -265,7 +274,8 @@ Fixpoint run_hist (steps : list ostep) (i : nat) (s : sstate) (nh : N) (modes : 
                           (first_some (vd_c04 v) (if p04 then None else Some i))
                           (first_some (vd_c09 v) (if p09 then None else Some i))
                           (first_some (vd_c15 v) (if p15 then None else Some i)) in
-      if ag then run_hist rest (S i) s' nh9 modes' v' else v'
+      if ag then run_hist rest (S i) s' nh9 modes' v'
+      else mkVerdict (vd_mismatch v') (vd_c04 v') (first_some (vd_c09 v') (c09_only rest (S i) nh9 modes')) (vd_c15 v')
   end.
 
 Definition judge (c : srvcase) : verdict :=
